@@ -608,7 +608,32 @@ func (g *Gen) motif() []*Op {
 		}
 		ops = append(ops, &Op{Kind: GetTag, Repo: repo, Tag: tag, StopAfter: -1, ContentFault: -1})
 	}
-	switch g.C.Int("motif.kind", 4) {
+	switch g.C.Int("motif.kind", 5) {
+	case 4:
+		// a tagged manifest pushed again, untagged, under another media type; then
+		// everything that reports its descriptor (small and beyond the size up to
+		// which a client keeps manifests in memory)
+		g.serial++
+		data := []byte(fmt.Sprintf("motif-opaque-%d-%d", g.serial, g.C.Int("motif.uniq", 1<<20)))
+		if g.C.Bool("motif.big", 1, 3) {
+			data = append(data, make([]byte, 131080+g.C.Int("motif.pad", 9))...)
+			for i := range data[20:] {
+				data[20+i] = ' '
+			}
+		}
+		types := g.C.Perm("motif.types", len(opaqueTypes))
+		push := func(tag, mt string) *Op {
+			return &Op{Kind: PushManifest, Repo: repo, Tag: tag, Data: data, MediaType: mt, StopAfter: -1, ContentFault: -1}
+		}
+		g.pastMan = append(g.pastMan, pastManifest{data, opaqueTypes[types[0]]})
+		ops = append(ops, push(tag, opaqueTypes[types[0]]), push("", opaqueTypes[types[1]]))
+		d := Sha256(data)
+		for _, k := range []Kind{GetTag, ResolveTag, GetManifest, ResolveManifest} {
+			if g.C.Bool("motif.read?", 3, 4) {
+				ops = append(ops, &Op{Kind: k, Repo: repo, Tag: tag, Digest: d, StopAfter: -1, ContentFault: -1})
+			}
+		}
+		return ops
 	case 0:
 		// nested index, one member deleted before anything is tagged, then the outer
 		// index is tagged: everything still reachable must stay
